@@ -475,6 +475,12 @@ func (s *Server) handleSessionMessage(addr *net.UDPAddr, msg []byte) error {
 		return nil
 	}
 
+	// A message too short to hold the counter and the tag has a negative
+	// plaintext length; it cannot authenticate and must not reach make().
+	if PlaintextLen(len(msg)) < 0 {
+		return ErrBufUnderflow
+	}
+
 	// TODO(dadrian): Can we avoid this allocation?
 	plaintext := make([]byte, PlaintextLen(len(msg)))
 	_, mt, err := ss.readPacketLocked(plaintext, msg, ss.readKey)
